@@ -77,7 +77,7 @@ func (tp *TagParser) parseMapValue(tag string) (string, string) {
 	for i < len(tag) && tag[i] != c {
 		i++
 	}
-	if i < len(tag) && tag[i+1] == ',' {
+	if i+1 < len(tag) && tag[i+1] == ',' {
 		i++
 	}
 	value := tag[:i]
@@ -101,8 +101,8 @@ func (tp *TagParser) parseMap(key string) map[string]interface{} {
 		}
 		var value string
 		tag, value = tp.parseMapValue(tag)
-		if (len(value) >= 2) && (value[0] == '"' && value[len(value)-1] == '"') ||
-			(value[0] == '\'' && value[len(value)-1] == '\'') {
+		if (len(value) >= 2) && ((value[0] == '"' && value[len(value)-1] == '"') ||
+			(value[0] == '\'' && value[len(value)-1] == '\'')) {
 			m[name] = value[1 : len(value)-1]
 			continue
 		}
